@@ -181,28 +181,40 @@ func (r *Registry) fromGo(fd *schema.Field, sh schema.Shape, v reflect.Value) va
 		es := make([]val.Val, v.Len())
 		for i := range es {
 			e := v.Index(i)
-			if sh.Pointer {
+			if e.Kind() == reflect.Ptr {
 				if e.IsNil() {
-					es[i] = val.Nil()
+					if sh.Pointer {
+						es[i] = val.Nil()
+					} else {
+						es[i] = r.elemFromGo(fd, sh, reflect.Zero(e.Type().Elem()))
+					}
 					continue
 				}
-				x := r.elemFromGo(fd, sh, e.Elem())
-				if sh.Cat == "message" {
-					es[i] = x
-				} else {
-					es[i] = val.SomeOf(x)
-				}
-				continue
+				e = e.Elem()
 			}
-			es[i] = r.elemFromGo(fd, sh, e)
+			x := r.elemFromGo(fd, sh, e)
+			if sh.Pointer && sh.Cat != "message" {
+				x = val.SomeOf(x)
+			}
+			es[i] = x
 		}
 		return val.ListOf(es)
 	}
 	if sh.Pointer {
+		if v.Kind() != reflect.Ptr {
+			// presence is not representable in the generated type: report the value as present
+			return val.SomeOf(r.elemFromGo(fd, sh, v))
+		}
 		if v.IsNil() {
 			return val.Nil()
 		}
 		return val.SomeOf(r.elemFromGo(fd, sh, v.Elem()))
+	}
+	if v.Kind() == reflect.Ptr && v.Type().Elem().Kind() != reflect.Uint8 {
+		if v.IsNil() {
+			return r.elemFromGo(fd, sh, reflect.Zero(v.Type().Elem()))
+		}
+		return r.elemFromGo(fd, sh, v.Elem())
 	}
 	return r.elemFromGo(fd, sh, v)
 }
@@ -295,26 +307,42 @@ func (r *Registry) toGo(fd *schema.Field, sh schema.Shape, x val.Val, dst reflec
 		sl := reflect.MakeSlice(dst.Type(), len(x.Elems), len(x.Elems))
 		for i, e := range x.Elems {
 			d := sl.Index(i)
+			// element pointer-ness by the generated type (a mismatch with the schema is counted)
+			isPtr := d.Kind() == reflect.Ptr
+			if isPtr != sh.Pointer {
+				ShapeMismatches++
+			}
+			inner := e
 			if sh.Pointer {
 				if e.K == val.None {
 					continue
 				}
-				p := reflect.New(d.Type().Elem())
-				inner := e
 				if sh.Cat != "message" {
 					inner = e.Elems[0]
 				}
+			}
+			if isPtr {
+				p := reflect.New(d.Type().Elem())
 				r.elemToGo(fd, sh, inner, p.Elem())
 				d.Set(p)
 				continue
 			}
-			r.elemToGo(fd, sh, e, d)
+			r.elemToGo(fd, sh, inner, d)
 		}
 		dst.Set(sl)
 		return
 	}
+	// The generated field may not have the pointer-ness the schema prescribes (that is a generator
+	// fault the checks are there to find): fill it as well as its actual type allows, so that the
+	// loss shows up as a behavioural difference instead of a crash of the harness.
 	if sh.Pointer {
 		if x.K == val.None {
+			return
+		}
+		inner := x.Elems[0]
+		if dst.Kind() != reflect.Ptr {
+			ShapeMismatches++
+			r.elemToGo(fd, sh, inner, dst)
 			return
 		}
 		p := reflect.New(dst.Type().Elem())
@@ -322,5 +350,15 @@ func (r *Registry) toGo(fd *schema.Field, sh schema.Shape, x val.Val, dst reflec
 		dst.Set(p)
 		return
 	}
+	if dst.Kind() == reflect.Ptr && dst.Type().Elem().Kind() != reflect.Uint8 {
+		ShapeMismatches++
+		p := reflect.New(dst.Type().Elem())
+		r.elemToGo(fd, sh, x, p.Elem())
+		dst.Set(p)
+		return
+	}
 	r.elemToGo(fd, sh, x, dst)
 }
+
+// ShapeMismatches counts fields whose generated Go type did not have the prescribed pointer-ness.
+var ShapeMismatches int
